@@ -440,7 +440,7 @@ func fdTable(c *Ctx, p *core.Prog, s *eng.SortSite, field string) (bool, string)
 		switch field {
 		case "TargetEnd":
 			// verified: every element gets TokensClaimed = TargetEnd - TargetStart before the sort
-			if hasTokensClaimedStore(s.Fn) {
+			if hasTokensClaimedStore(s.Fn) || tokensClaimedMaintained(s.Fn) {
 				c.R.Assume("matchRange.TargetEnd is determined by TargetStart and TokensClaimed at the sort in targetMatchedRanges (the store TokensClaimed = TargetEnd - TargetStart is verified on every run)")
 				return true, ""
 			}
@@ -990,4 +990,68 @@ func derivesFromLookup(v ssa.Value) bool {
 		return true
 	}
 	return false
+}
+
+// tokensClaimedMaintained: the other way to have TokensClaimed = TargetEnd - TargetStart at the sort: it is kept true at
+// every write. Every matchRange literal in the function and the package functions it calls gives TokensClaimed the
+// difference of the very values it gives TargetEnd and TargetStart, and every later store into TargetEnd or TargetStart of
+// a range is followed, in the same block, by the store TokensClaimed = x.TargetEnd - x.TargetStart on the same range.
+func tokensClaimedMaintained(fn *ssa.Function) bool {
+	fns := pkgClosure(fn, core.FuncPkgPath(fn))
+	nLit, nUpd := 0, 0
+	for _, f := range fns {
+		for _, lit := range structLits([]*ssa.Function{f}, "/v2.matchRange") {
+			tc, has := lit.fields["TokensClaimed"]
+			if !has {
+				if lit.fields["TargetEnd"] != nil || lit.fields["TargetStart"] != nil {
+					return false
+				}
+				continue
+			}
+			bo, ok := tc.(*ssa.BinOp)
+			same := func(a, b ssa.Value) bool {
+				return a != nil && b != nil && (a == b || (core.AP(a) == core.AP(b) && !strings.HasPrefix(core.AP(a), "?")))
+			}
+			if !ok || bo.Op != token.SUB || !same(bo.X, lit.fields["TargetEnd"]) || !same(bo.Y, lit.fields["TargetStart"]) {
+				return false
+			}
+			nLit++
+		}
+		for _, b := range f.Blocks {
+			for i, in := range b.Instrs {
+				st, ok := in.(*ssa.Store)
+				if !ok {
+					continue
+				}
+				fa, ok := st.Addr.(*ssa.FieldAddr)
+				if !ok || !strings.HasSuffix(core.TypeName(fa.X.Type()), "/v2.matchRange") || isFreshBase(fa.X) {
+					continue
+				}
+				name := core.FieldName(fa)
+				if name != "TargetEnd" && name != "TargetStart" {
+					continue
+				}
+				base := core.AP(fa.X)
+				fixed := false
+				for _, later := range b.Instrs[i+1:] {
+					s2, ok := later.(*ssa.Store)
+					if !ok {
+						continue
+					}
+					fa2, ok := s2.Addr.(*ssa.FieldAddr)
+					if !ok || core.FieldName(fa2) != "TokensClaimed" || core.AP(fa2.X) != base {
+						continue
+					}
+					if bo, ok := s2.Val.(*ssa.BinOp); ok && bo.Op == token.SUB && core.AP(bo.X) == base+".TargetEnd" && core.AP(bo.Y) == base+".TargetStart" {
+						fixed = true
+					}
+				}
+				if !fixed {
+					return false
+				}
+				nUpd++
+			}
+		}
+	}
+	return nLit > 0
 }
